@@ -247,8 +247,10 @@ Fixpoint send_all (rs : list (list Z)) (s : st) : st * option Z :=
                 match e with Some z => (s1, Some z) | None => send_all rs' s1 end
   end.
 
+(* a write on a closed connection raises before the try block: no _shutdown, session untouched
+   (before /repo 8b57b65 its handler ran _shutdown(ignoreAbruptClose)) *)
 Definition do_write (d : list Z) (s : st) : st * outcome :=
-  if closed s then raise_after_shutdown (ign s) XClosed s
+  if closed s then (s, OExc XClosed)
   else let '(s1, e) := send_all (records s d) s in
        match e with
        | Some z => raise_after_shutdown (ign s1) (XSock z) s1
@@ -319,15 +321,16 @@ Definition hs_wrapper (x : exn) (s : st) : st * outcome :=
   | _ => raise_after_shutdown false x s'
   end.
 
-(* _sendMsgThroughSocket after socket.error on a handshake record: read the next record,
-   _shutdown(False), raise TLSRemoteAlert if it is an alert -- and otherwise fall through *)
-Definition look_for_alert (s : st) : st * outcome :=
+(* _sendMsgThroughSocket after socket.error z on a handshake record: read the next record,
+   _shutdown(False), raise TLSRemoteAlert if it is an alert, otherwise re-raise the socket error
+   (before /repo 0ab9df1 the last case fell through and the handshake went on) *)
+Definition look_for_alert (z : Z) (s : st) : st * outcome :=
   match recv_item s with
   | (s1, Val i) =>
       let '(s2, e) := shutdown false s1 in
       match e with
-      | Some z => hs_wrapper (XSock z) s2
-      | None => match i with IAlert _ d => hs_wrapper (XRemote d) s2 | _ => (s2, OStep) end
+      | Some z' => hs_wrapper (XSock z') s2
+      | None => match i with IAlert _ d => hs_wrapper (XRemote d) s2 | _ => hs_wrapper (XSock z) s2 end
       end
   | (s1, Exc x) => hs_wrapper x s1
   | (s1, Blk) => (set_hs false s1, OBlocked)
@@ -346,7 +349,7 @@ Definition do_hs (h : hstep) (s : st) : st * outcome :=
   | HSend ct => let '(s1, e) := send_rec (WHs ct) s in
                 match e with
                 | None => (s1, OStep)
-                | Some z => if ct =? 22 then look_for_alert s1 else hs_wrapper (XSock z) s1
+                | Some z => if ct =? 22 then look_for_alert z s1 else hs_wrapper (XSock z) s1
                 end
   | HBufOn => (set_bufw true s, OStep)
   | HFlushOff => let '(s1, e) := flush s in
